@@ -4,7 +4,6 @@ package c07
 import (
 	"bufio"
 	"bytes"
-	"errors"
 	"fmt"
 	"io"
 	"path/filepath"
@@ -243,7 +242,7 @@ func check(c Case) (kind, what string, nt bool) {
 		return k + "bytes", fmt.Sprintf("stream yields %d bytes, source delivered %d (first difference at %d); loader had pulled %d bytes, fault at %d, load err=%q (%s)", len(got), len(want), firstDiff(got, want), pulled, c.FaultAt, o.Err, c.Seed), nt
 	}
 	if fault {
-		if derr == nil || derr != s.Err() && !errors.Is(derr, s.Err()) {
+		if derr == nil || !src.SameErr(derr, s.Err()) {
 			return k + "error-lost", fmt.Sprintf("source failed at byte %d with the I/O error %q but the stream ended with %v after %d bytes (loader had pulled %d; %s)", c.FaultAt, s.Err(), derr, len(got), pulled, c.Seed), nt
 		}
 	} else if derr != nil {
